@@ -71,6 +71,13 @@ def theorems_of(prop):
     return out
 
 
+def modules_of(prop):
+    """the property's theorem module and its satellites (Prov/Props/<prop>*.lean)"""
+    import glob
+    return ["Prov.Props." + os.path.basename(p)[:-5] for p in sorted(glob.glob(os.path.join(LEAN, "Prov", "Props", prop + "*.lean")))] \
+        or ["Prov.Props." + prop]
+
+
 def run(cmd, cwd=None, timeout=3600):
     p = subprocess.run(cmd, cwd=cwd, stdout=subprocess.PIPE, stderr=subprocess.STDOUT, timeout=timeout)
     return p.returncode, p.stdout.decode("utf-8", "replace")
@@ -90,7 +97,7 @@ def lean_stage(prop, extra_modules=(), clean=False, leanchecker=False):
             res["build_log"] = "gen_tables failed:\n" + out[-3000:]
             return res
         res["tables_changed"] = "CHANGED" in out
-        targets = ["driver", "Prov.Props.Tables", "Prov.Props." + prop] + list(extra_modules)
+        targets = ["driver", "Prov.Props.Tables"] + modules_of(prop) + list(extra_modules)
         if clean:
             import glob
             libdir = os.path.join(LEAN, ".lake", "build", "lib", "lean", "Prov", "Props")
@@ -107,7 +114,7 @@ def lean_stage(prop, extra_modules=(), clean=False, leanchecker=False):
         thms = theorems_of(prop) + theorems_of("Tables")
         res["theorems"] = thms
         with tempfile.NamedTemporaryFile("w", suffix=".lean", dir=LEAN, delete=False) as f:
-            f.write("import Prov.Props.%s\nimport Prov.Props.Tables\n" % prop)
+            f.write("".join("import %s\n" % m for m in modules_of(prop)) + "import Prov.Props.Tables\n")
             for t in thms:
                 f.write("#print axioms %s\n" % t)
             audit = f.name
@@ -135,7 +142,7 @@ def lean_stage(prop, extra_modules=(), clean=False, leanchecker=False):
                     res["bad_axioms"][t] = bad
         res["forbidden"] = grep_forbidden()
         if leanchecker:
-            rc, out = run(["lake", "env", "leanchecker", "Prov.Props." + prop], cwd=LEAN, timeout=3600)
+            rc, out = run(["lake", "env", "leanchecker"] + modules_of(prop), cwd=LEAN, timeout=3600)
             res["leanchecker_ok"] = rc == 0
             res["leanchecker_log"] = out[-1500:]
         res["ok"] = res["build_ok"] and not res["bad_axioms"] and not res["forbidden"] and res.get("leanchecker_ok", True)
